@@ -202,7 +202,12 @@ fn content_event(r: &mut StdRng, big: bool) -> (Option<String>, String) {
         }
     }
     let ty: Option<String> =
-        if r.gen_bool(0.4) { Some((0..r.gen_range(0..5)).map(|_| *["t", " ", ":", "x1", "é"].choose(r).unwrap()).collect()) } else { None };
+        if r.gen_bool(0.4) {
+            // (a type with a line break cannot be encoded: `Event::custom` has to refuse it, wherever the break is)
+            Some((0..r.gen_range(0..5)).map(|_| *["t", " ", ":", "x1", "é", "t", "x1", "\n", "\r", "\r\n"].choose(r).unwrap()).collect())
+        } else {
+            None
+        };
     (ty, data)
 }
 
